@@ -18,4 +18,19 @@ if [ $need -eq 1 ]; then
   (cd checker && go build -o ../bin/haqqcheck .) || { echo "ANALYSER-FAILURE: cannot build haqqcheck"; exit 2; }
 fi
 PROP="$1"; TIER="${2:-${VERIF_TIER:-quick}}"
-exec "$BIN" -property "$PROP" -tier "$TIER" -repo "${VERIF_REPO:-/repo}" -verif "$(pwd)"
+OUT=$(mktemp "${TMPDIR:-/tmp}/haqqcheck.$PROP.XXXXXX") || exit 2
+trap 'rm -f "$OUT"' EXIT
+"$BIN" -property "$PROP" -tier "$TIER" -repo "${VERIF_REPO:-/repo}" -verif "$(pwd)" >"$OUT" 2>&1
+rc=$?
+# A non-zero exit without a VIOLATION line is not a verdict: the program could not be loaded or a self-test mutant
+# could not be analysed (seen when something else on the machine trims the Go build cache under the loader).
+# Try once more before reporting it; a verdict (exit 0, or exit 1 with VIOLATION lines) is never retried.
+if [ $rc -ne 0 ] && ! grep -q '^VIOLATION' "$OUT"; then
+  cat "$OUT"
+  echo "run.sh: no verdict (exit $rc without a VIOLATION line); analysing once more"
+  sleep 3
+  "$BIN" -property "$PROP" -tier "$TIER" -repo "${VERIF_REPO:-/repo}" -verif "$(pwd)" >"$OUT" 2>&1
+  rc=$?
+fi
+cat "$OUT"
+exit $rc
